@@ -13,11 +13,10 @@ family but rank-deficient (known finding): the streams compare the getters and t
 well.
 
 Rank clause: the model prints `rankFamily` (theorem `generators_independent`: independent for every
-size; `generators_count_partial`: n - k members for every size that is neither deficient nor in the
-gap Lz = 4, Lx >= 4, Ly >= 5); the stream `rank-family` evaluates it on the
-implementation's stabilizer_matrix on every run: distinct stabilizer locations, n - k of them, GF(2)
-rank n - k on the counted sizes; `independent` (rank = number of members) on the deficient and gap
-sizes."""
+size; `generators_count`: n - k members for every size that is not deficient); the stream
+`rank-family` evaluates it on the implementation's stabilizer_matrix on every run: distinct stabilizer
+locations, n - k of them, GF(2) rank n - k on every non-deficient size; `independent` (rank = number
+of members) on the deficient sizes."""
 from __future__ import annotations
 
 import itertools
@@ -44,9 +43,8 @@ def deficient(L):
 
 
 def gap(L):
-    """the predicate `Gap`: the family is independent there, its count is not proved"""
-    Lx, Ly, Lz = L
-    return Lz == 4 and Lx >= 4 and Ly >= 5
+    """no size of the family is left out: every non-deficient size is counted (theorem generators_count)"""
+    return False
 
 
 RANK_SIZES = [(2, 2, 3), (2, 3, 4), (3, 3, 3), (3, 4, 4), (4, 4, 4), (3, 5, 4), (3, 5, 5), (4, 4, 5), (4, 5, 5),
@@ -128,6 +126,7 @@ def rank_stream(ctx):
                   {'code': label, 'what': 'independent family of n-k generators (theorems generators_independent, '
                    'generators_count_partial) evaluated on stabilizer_matrix'},
                   tag='no-hole' if (size[0] <= 2 or size[1] <= 3 or size[2] <= 3) else
+                  ('slab-hole-z' if size[2] == 4 and size[0] >= 4 and size[1] >= 5 else None) or
                   ('thick-hole' if (size[0] >= 4 and size[1] >= 5 and size[2] >= 5) else 'thin-hole'))
     return s.run()
 
